@@ -148,12 +148,15 @@ inline bool Futex::Awaitable::await_suspend(
   node->id = id;
   node->promise = &handle.promise();
   node->handle = handle;
+  // Once the node is published, a concurrent wake can resume and even destroy
+  // this coroutine together with the awaitable. Keep the callback in a local.
+  auto on_suspend = ::std::move(_on_suspend);
   auto success = _futex->add_awaiter(node, _expected_value);
   if (!success) {
     // Not suspended, nobody else knows this id. Release the slot right here.
     box.take(id);
-  } else if (_on_suspend) {
-    _on_suspend({id});
+  } else if (on_suspend) {
+    on_suspend({id});
   }
   return success;
 }
